@@ -168,6 +168,13 @@ class World:
             if fc["kind"] == "synthetic_h5":
                 p = scratch / f"meas_{n}.h5"
                 curves.write_afm_hdf5(p, fc["curves"])
+            elif fc["kind"] == "copy":
+                # the same measurement (byte for byte) at another location
+                src = self.files[fc["of"] % len(self.files)]
+                d = scratch / f"moved_{n}"
+                d.mkdir(exist_ok=True)
+                p = d / src.name
+                shutil.copy(src, p)
             else:
                 p = scratch / fc["file"]
                 shutil.copy(curves.DATA / fc["file"], p)
@@ -304,6 +311,9 @@ class ContainerEngine:
             else:
                 files.append({"kind": "recorded", "file":
                               "fmt-jpk-fd_map2x2_extracted.jpk-force-map"})
+        if rng.random() < 0.3:
+            files.append({"kind": "copy", "of": rng.randrange(nfiles)})
+            nfiles += 1
         ncurves = rng.randint(2, 5)
         cvs = []
         for _ in range(ncurves):
@@ -768,6 +778,38 @@ class ContainerEngine:
                 ref[key]["user"] = seen
                 ref[key]["state"] = "stored"
                 ref[key].pop("user_new", None)
+        # the training-set view of the container: one row of rating
+        # features per stored curve, those of the original
+        try:
+            with warnings.catch_warnings():
+                warnings.simplefilter("ignore")
+                sm = np.asarray(rio.RateManager(path).samples)
+        except _caught() as ex:
+            return make_violation(
+                self.prop, "K1", f"samples-raise:{type(ex).__name__}", feats,
+                f"RateManager.samples raised {type(ex).__name__}: "
+                f"{str(ex)[:120]}", i)
+        if len(ratings) and sm.shape[0] != len(ratings):
+            return make_violation(
+                self.prop, "K1", "samples-count", feats,
+                f"RateManager.samples has {sm.shape[0]} rows for "
+                f"{len(ratings)} stored curves", i)
+        for n_, r in enumerate(ratings):
+            lk = [k_ for k_, r_ in loaded.items() if r_ is r]
+            if not lk or lk[0] not in ref:
+                continue
+            e = ref[lk[0]]
+            orig = w.curve(e["ci"], e["variant"])
+            with warnings.catch_warnings():
+                warnings.simplefilter("ignore")
+                fa = np.asarray(IndentationFeatures.compute_features(orig),
+                                dtype=float)
+            if digest_array(fa) != digest_array(np.asarray(sm[n_],
+                                                           dtype=float)):
+                return make_violation(
+                    self.prop, "K1", "samples", feats,
+                    f"row {n_} of RateManager.samples differs from the "
+                    f"rating features of the curve that was stored", i)
         self.probes["container read back and compared"] += 1
         return None
 
